@@ -14,7 +14,8 @@ EXPLANATION = (
     "returns early without enqueueing it passes on_error; (4) state constants are set in lifecycle order; (5) the recorded connector is "
     "the one whose connect() is called; (6) every payload write in copy.rs is paired with incr_sent_bytes of the transferred count "
     "(including the drained read-ahead); (7) rule P over gc_thread/log_thread (in C05's scope) and the access log flushes per record."
-    ' hand-off: no return of Drop for Context bypasses the push to gc_list.')
+    ' hand-off: no return of Drop for Context bypasses the push to gc_list.'
+    ' hand-over: ContextRefOps::enqueue waits for room in the bounded request queue (awaited send on every return; no try_send / send_timeout).')
 RULE_TEXT = "instances = constructor sites, hand-off steps, return paths, state call sites, payload write sites"
 TRUSTED = ["one Drop per Context value (ownership)", "a single consumer of gc_list"]
 NOT_DECIDED = ["exactly-once under real concurrency (argued from ownership)", "log durability"]
@@ -36,7 +37,41 @@ def state_of(f, c):
     return m.group(1) if m else (s if s in STATE_ORDER else None)
 
 
+def rule_handoff_waits(chk, prog, rule="hand-over"):
+    """An accepted connection is handed to the routing loop through a bounded queue.  The hand-over waits for room (`Sender::send`
+    awaited): a burst larger than the queue slows the listeners down, it does not lose requests.  With try_send / send_timeout the
+    hand-over fails under load, and the listeners that propagate that failure with `?` (reverse, tproxy) drop the context without a
+    terminal state: the connection was accepted, listed and logged, but never finished or failed.  In ContextRefOps::enqueue every
+    successful return passes an awaited send, and no failing-when-full variant is used."""
+    from ..flow import result_blocks
+    fs = prog.find(r"ContextRefOps>::enqueue$", "redproxy_rs")
+    if len(fs) != 1:
+        chk.anchor_missing(rule, "ContextRefOps::enqueue")
+        return
+    g = prog.body_of(fs[0])
+    sends = [c for c in g.calls if re.search(r"tokio::sync::mpsc::bounded::Sender::<T>::send$", c.path or "")]
+    lossy = [c for c in g.calls if re.search(r"tokio::sync::mpsc::(bounded::Sender::<T>::(try_send|send_timeout|try_reserve|try_reserve_owned|blocking_send)|unbounded::)", c.path or "")]
+    aw = [awaited(g, c) for c in sends]
+    ok = len(sends) >= 1 and all(a and a.get("result") is not None for a in aw) and not lossy
+    why = "%d awaited send(s), %d send(s) that fail when the queue is full" % (len(sends), len(lossy))
+    if ok:
+        # the value returned on success is the send's own result (or every Ok exit comes after the send)
+        rets = set(g.returns())
+        byp = rets & g.reach_from([0], avoid=[c.bb for c in sends])
+        if byp:
+            ok = False
+            why = "a return of enqueue() bypasses the send"
+    chk.instance(rule, "%s:%s" % (g.file, g.line), "enqueue() waits for room in the request queue", ok, why)
+    if not ok:
+        chk.finding(rule, g.key, "queue-full-fails", "", "%s:%s" % (g.file, g.line),
+                    "ContextRefOps::enqueue no longer waits for room in the bounded request queue (%s): under a burst the hand-over fails, and a "
+                    "listener that returns that error drops the context - the connection is accepted, listed and logged without a terminal "
+                    "state" % why)
+
+
+
 def run(chk, prog):
+    rule_handoff_waits(chk, prog)
     # ---------------------------------------------------------------- (1)
     ok, d = anchors.check(prog, "context_single_ctor")
     chk.instance("ctor", "src/context.rs", "Context is built only in create_context, which registers it in alive", ok, d)
